@@ -794,8 +794,43 @@ func (w *world) reconstruct(h histT, S []party.ID, mat map[party.ID]interface{},
 			w.violate("C02", "does-not-reconstruct", fmt.Sprintf("%s n=%d t=%d: shares of %v (versions %v) do not combine to the key of any version", w.scheme, len(w.ids), w.t, S, h.Probe.pick()))
 		}
 	case "mixed":
-		if hits >= 1 {
-			w.violate("C08", "mixed-shares-reconstruct", fmt.Sprintf("%s: shares of %v taken from versions %v combine to the key of version %d", w.scheme, S, h.Probe.pick(), hits))
+		// A reconstruction takes exactly t+1 shares.  With more, interpolating through all of them at once can return the
+		// key by an algebraic coincidence that has nothing to do with the refresh (ids a,b,c,d are consecutive scalars:
+		// for t = 1 the Lagrange weights of {a,d} and of {b,c} cancel, whatever the two lines are), so the statement is
+		// judged on every (t+1)-subset whose shares come from different versions.
+		if w.scheme == "doerner" || len(S) <= w.t+1 {
+			if hits >= 1 {
+				w.violate("C08", "mixed-shares-reconstruct", fmt.Sprintf("%s: shares of %v taken from versions %v combine to the key of version %d", w.scheme, S, h.Probe.pick(), hits))
+			}
+			break
+		}
+		pick := h.Probe.pick()
+		verOf := map[party.ID]int{}
+		for _, k := range h.Probe.S {
+			verOf[w.ids[k-1]] = pick[k]
+		}
+		for _, sub := range judge.Subsets(S, w.t+1, 40) {
+			mixed := false
+			for _, id := range sub {
+				if verOf[id] != verOf[sub[0]] {
+					mixed = true
+				}
+			}
+			if !mixed {
+				continue
+			}
+			var xs, ys []*big.Int
+			for _, id := range sub {
+				xs = append(xs, oracle.IDScalar(string(id)))
+				ys = append(ys, vs[id].Secret)
+			}
+			p := oracle.BaseMul(oracle.InterpolateAt0(xs, ys))
+			for vi, ver := range vers {
+				if kv, err := judge.View(ver.mat[S[0]]); err == nil && (oracle.Equal(p, kv.Group) || (w.scheme == "taproot" && oracle.Equal(oracle.Neg(p), kv.Group))) {
+					w.violate("C08", "mixed-shares-reconstruct", fmt.Sprintf("%s: the %d shares of %v taken from versions %v combine to the key of version %d", w.scheme, w.t+1, sub, pick, vi+1))
+					return
+				}
+			}
 		}
 	case "refused":
 		if hits >= 1 && !(w.scheme == "doerner") && w.t >= 1 {
